@@ -203,6 +203,14 @@ pub fn finish(ctx: &Ctx, mut res: CheckResult, wall_s: f64) -> i32 {
             println!("KNOWN-FINDING: property={} {} [{}] ({} occurrence(s) this run)", res.property, what, class, fs.len());
             n_known += 1;
             reported.push(json!({"class": class, "known": true, "occurrences": fs.len()}));
+            // keep a replayable scenario for every known finding (written once, then left alone)
+            let kdir = ctx.verif.join("known-replays");
+            let _ = std::fs::create_dir_all(&kdir);
+            let kpath = kdir.join(format!("{}-{}.json", res.property, class_slug(class)));
+            if !kpath.exists() {
+                let doc = json!({"property": res.property, "class": class, "what": what, "detail": f.violation.detail, "case": f.case});
+                let _ = std::fs::write(&kpath, serde_json::to_vec_pretty(&doc).unwrap());
+            }
             continue;
         }
         n_violations += 1;
